@@ -90,12 +90,12 @@ Theorem reward_lines_tie rew rate :
 Proof. repeat split. Qed.
 
 (* structure of the end-blocker that the model takes for granted: at a tally the ballots are cleared and the slash
-   window gate is evaluated on EVERY path (the only exits before them are the tally gate and the `continue` of the
-   validator loop; neither call sits inside a conditional), and at a closing every miss counter is deleted (no exit
+   window gate is evaluated on EVERY path (the only statement before them that can skip them is the return of the tally
+   gate - a `continue` of an earlier loop skips nothing and is not counted; neither call sits inside a conditional), and at a closing every miss counter is deleted (no exit
    precedes the deletion inside the iteration callback, which is not nested in a conditional) *)
 (* TIE: EndBlocker_clears_unconditional EndBlocker_close_unconditional *)
 Theorem end_blocker_structure_tie :
-  EndBlocker_clears_unconditional = 2000 /\ EndBlocker_close_unconditional = 2000.
+  EndBlocker_clears_unconditional = 1000 /\ EndBlocker_close_unconditional = 1000.
 Proof. split; reflexivity. Qed.
 
 (* TIE: Slash_reset_unconditional Clear_prevotes_unconditional Clear_votes_unconditional *)
